@@ -91,7 +91,10 @@ fn valid_token() -> (String, String, String, String, String) {
 pub fn compact_alphabet() -> Vec<String> {
     let (h, p, s, d, jwt) = valid_token();
     let kb = tokens::sign_json(&json!({"alg": "ES256", "typ": "kb+jwt"}), &json!({"nonce": "nonce", "aud": "aud", "iat": 1, "sd_hash": "x"}), jsonwebtoken::Algorithm::ES256, &Hk::Es.enc(0).unwrap());
-    vec!["~".into(), ".".into(), "x".into(), "!".into(), b64e(b"{}"), b64e(b"[]"), b64e(br#"{"iss":"i"}"#), h, p, s, d, jwt, kb]
+    // two long first-segment candidates: a valid header with a 300-character kid, and a 400-character base64url run
+    let long_header = b64_json(&json!({"alg": "HS256", "kid": "k".repeat(300)}));
+    let long_run = "A".repeat(400);
+    vec!["~".into(), ".".into(), "x".into(), "!".into(), b64e(b"{}"), b64e(b"[]"), b64e(br#"{"iss":"i"}"#), h, p, s, d, jwt, kb, long_header, long_run]
 }
 
 fn nth_sequence(alpha: &[String], len: usize, mut idx: usize) -> String {
@@ -112,6 +115,7 @@ fn json_form_cases() -> Vec<String> {
     let (h, p, s, d, _) = valid_token();
     let base = json_member_values();
     let proper = [json!(h), json!(p), json!(s)];
+    let long_header = b64_json(&json!({"alg": "HS256", "kid": "k".repeat(300)}));
     let mut disc_opts: Vec<Option<Value>> = base.clone();
     disc_opts.extend([Some(json!(["x"])), Some(json!([d])), Some(json!([0])), Some(json!([d, d])), Some(json!([[d]]))]);
     let mut kb_opts = base.clone();
@@ -137,6 +141,11 @@ fn json_form_cases() -> Vec<String> {
                     }
                 }
             }
+        }
+    }
+    for prot in [long_header.clone(), "A".repeat(400), "A".repeat(343), "A".repeat(344), "A".repeat(345)] {
+        for pay in [p.clone(), "x".to_string()] {
+            out.push(json!({"protected": prot, "payload": pay, "signature": s, "disclosures": [d]}).to_string());
         }
     }
     for t in ["", "null", "[]", "0", "\"x\"", "{", "{}", "[{}]", "{\"protected\":", "\u{0}", "{\"payload\":\"\\ud800\"}"] {
